@@ -238,3 +238,134 @@ def with_helpers(ctx, fv, depth: int = 2) -> List[FV]:
                 nxt.append(gv)
         frontier = nxt
     return out
+
+
+# ------------------------------------------------------------------ memoisation
+CACHE_DECORATORS = {"lru_cache", "cache", "cached", "memoize", "memoized", "cached_property"}
+_MEMO_FIXTURE = '''
+import functools
+_CODES = {}
+@functools.lru_cache(maxsize=None)
+def wells_of(n):
+    return [str(i) for i in range(n)]
+def code(rows, cols, selected):
+    k = bytes(selected)
+    if k in _CODES:
+        return _CODES[k]
+    r = str(rows) + str(cols)
+    _CODES[k] = r
+    return r
+'''
+
+
+def _decorator_name(d: ast.AST) -> str:
+    if isinstance(d, ast.Call):
+        d = d.func
+    return d.attr if isinstance(d, ast.Attribute) else getattr(d, "id", "")
+
+
+def _mutable_value(e: ast.AST) -> Optional[bool]:
+    """True: a list/dict/set/ndarray is built; False: clearly immutable; None: unknown."""
+    if isinstance(e, (ast.List, ast.Dict, ast.Set, ast.ListComp, ast.DictComp, ast.SetComp)):
+        return True
+    if isinstance(e, (ast.Constant, ast.JoinedStr, ast.Tuple, ast.Compare, ast.BoolOp)):
+        return False if not isinstance(e, ast.Tuple) or all(_mutable_value(x) is False for x in e.elts) else None
+    if isinstance(e, ast.Call):
+        fn = call_fname(e)
+        if fn in ("list", "dict", "set", "array", "asarray", "zeros", "ones", "full", "empty", "zeros_like", "copy", "tolist", "flatten", "ravel", "reshape", "sorted", "repeat", "defaultdict", "deepcopy"):
+            return True
+        if fn in ("str", "int", "float", "bool", "tuple", "frozenset", "len", "format", "join", "round"):
+            return False
+        return None
+    if isinstance(e, ast.BinOp):
+        a, b = _mutable_value(e.left), _mutable_value(e.right)
+        if a is True or b is True:
+            return True
+        return None
+    if isinstance(e, ast.Subscript) and isinstance(e.slice, ast.Slice):
+        return _mutable_value(e.value)
+    return None
+
+
+def memo_findings(tree_functions) -> List[Tuple[object, ast.AST, str, Optional[bool]]]:
+    """(function, node, message, verdict False=refuted / None=inconclusive) for caching that changes behaviour:
+    a cache decorator on a function that builds a mutable result (every caller gets the same object), and a hand-written
+    memo table whose key leaves out a parameter of the function."""
+    out = []
+    for f, fdef in tree_functions:
+        for d in fdef.decorator_list:
+            if _decorator_name(d) in CACHE_DECORATORS:
+                rets = [s.value for s in own_walk(fdef) if isinstance(s, ast.Return) and s.value is not None]
+                # follow plain local names to their (single) definition
+                defs: Dict[str, List[ast.AST]] = {}
+                for s in own_walk(fdef):
+                    if isinstance(s, ast.Assign) and len(s.targets) == 1 and isinstance(s.targets[0], ast.Name):
+                        defs.setdefault(s.targets[0].id, []).append(s.value)
+                verdicts = []
+                for r in rets:
+                    if isinstance(r, ast.Name) and r.id in defs:
+                        vs = [_mutable_value(v) for v in defs[r.id]]
+                        verdicts.append(True if any(v is True for v in vs) else (False if all(v is False for v in vs) else None))
+                    else:
+                        verdicts.append(_mutable_value(r))
+                if any(v is True for v in verdicts):
+                    out.append((f, d, f"`@{_decorator_name(d)}` on a function that builds a list/dict/array: every call with equal arguments hands out the *same* mutable object, "
+                                "so a caller that edits its result changes what all later callers get", False))
+                elif not all(v is False for v in verdicts):
+                    out.append((f, d, f"`@{_decorator_name(d)}`: cannot tell whether the cached result is mutable", None))
+        # hand-written memo:  if k in TABLE: return TABLE[k]   ...   TABLE[k] = value
+        params = [a.arg for a in fdef.args.posonlyargs + fdef.args.args + fdef.args.kwonlyargs if a.arg not in ("self", "cls")]
+        stores = {}
+        for s in own_walk(fdef):
+            if isinstance(s, ast.Assign) and len(s.targets) == 1 and isinstance(s.targets[0], ast.Subscript) and isinstance(s.targets[0].value, (ast.Name, ast.Attribute)):
+                stores.setdefault(ast.unparse(s.targets[0].value), []).append(s.targets[0])
+        for table, tgts in stores.items():
+            reads = [s for s in own_walk(fdef) if isinstance(s, ast.Return) and s.value is not None and any(
+                (isinstance(x, ast.Subscript) and ast.unparse(x.value) == table and isinstance(x.ctx, ast.Load)) or
+                (isinstance(x, ast.Call) and isinstance(x.func, ast.Attribute) and x.func.attr == "get" and ast.unparse(x.func.value) == table) for x in ast.walk(s.value))]
+            reads += [s for s in own_walk(fdef) if isinstance(s, ast.Assign) and isinstance(s.value, ast.Call) and isinstance(s.value.func, ast.Attribute) and s.value.func.attr == "get"
+                      and ast.unparse(s.value.func.value) == table]
+            if not reads:
+                continue
+            local_defs: Dict[str, ast.AST] = {}
+            for s in own_walk(fdef):
+                if isinstance(s, ast.Assign) and len(s.targets) == 1 and isinstance(s.targets[0], ast.Name):
+                    local_defs.setdefault(s.targets[0].id, s.value)
+            kexpr = tgts[0].slice
+            seen_names: Set[str] = set()
+            work = [kexpr]
+            depth = 0
+            while work and depth < 50:
+                depth += 1
+                e = work.pop()
+                for x in ast.walk(e):
+                    if isinstance(x, ast.Name) and x.id not in seen_names:
+                        seen_names.add(x.id)
+                        if x.id in local_defs and x.id not in params:
+                            work.append(local_defs[x.id])
+            # parameters that influence the result: all of them, unless they are only used to build the key
+            missing = [p for p in params if p not in seen_names]
+            if missing:
+                out.append((f, tgts[0], f"results are memoised in `{table}` under the key `{ast.unparse(kexpr)[:50]}`, which does not contain the parameter(s) {missing}: "
+                            "a call that differs only in those gets the result computed for another call", False))
+    return out
+
+
+def memo_rule(ctx, rule: str, module_suffixes: Sequence[str]) -> None:
+    """No behaviour-changing caching in the modules a property is anchored in (see memo_findings)."""
+    funcs = [(f, f.node) for f in ctx.prog.all_functions(include_inlined=True) if f.module.relpath.endswith(tuple(module_suffixes))]
+    n = 0
+    for f, node, msg, verdict in memo_findings(funcs):
+        n += 1
+        ctx.rep.touch(f)
+        if verdict is False:
+            ctx.rep.refuted(rule, f"{f.qualname}/cache", msg, where=f.where(node))
+        else:
+            ctx.rep.inconclusive(rule, f"{f.qualname}/cache", msg, where=f.where(node))
+    fx = ast.parse(_MEMO_FIXTURE)
+    fx_funcs = [(None, s) for s in fx.body if isinstance(s, ast.FunctionDef)]
+    hits = memo_findings(fx_funcs)
+    if len([h for h in hits if h[3] is False]) != 2:
+        ctx.rep.inconclusive(rule, "fixture/memo", "embedded positive fixture (cached mutable result + incomplete memo key) was not detected: rule is broken")
+    elif n == 0:
+        ctx.rep.holds(rule, "no-behaviour-changing-cache", f"{len(funcs)} functions in {list(module_suffixes)}: no cache decorator on a builder of mutable results, no memo table with an incomplete key (fixture detected)")
